@@ -115,6 +115,13 @@ m("star-power-any-index", "chartparse/instrument.py", '_index_regex = r"2"', '_i
 m("junk-stops-section", "chartparse/track.py",
   "            logger.warning(_unparsable_line_msg_tmpl.format(line, [t.__qualname__ for t in types]))",
   "            logger.warning(_unparsable_line_msg_tmpl.format(line, [t.__qualname__ for t in types]))\n            if len(m._dict) >= 3:\n                break", ["C14"])
+# ---- C18
+m("str-tap-keyerror", "chartparse/instrument.py", '            HOPOState.TAP: "T",\n', '', ["C18"])
+m("player2-keyerror", "chartparse/metadata.py",
+  'processing_fn=lambda s: Player2Instrument(s)', 'processing_fn=lambda s: {"bass": Player2Instrument.BASS, "rhythm": Player2Instrument.RHYTHM}[s]', ["C18"])
+m("sp-index-error", "chartparse/instrument.py",
+  "        if proximal_star_power_event_index >= len(star_power_events):\n            raise ValueError(",
+  "        if proximal_star_power_event_index > len(star_power_events):\n            raise ValueError(", [], ["C18", "C05"])  # unreachable guard: neutral
 # ---- C08
 m("bpm-sum-parts", "chartparse/sync.py",
   "bpm = int(data.raw_bpm) / 1000",
